@@ -510,7 +510,7 @@ def run_impl(lines):
     env = dict(os.environ, ASAN_OPTIONS="detect_leaks=1:abort_on_error=0")
     try:
         r = subprocess.run([HARNESS], input="\n".join(lines) + "\n", stdout=subprocess.PIPE, stderr=subprocess.PIPE,
-                           text=True, timeout=60, env=env)
+                           text=True, timeout=75, env=env)
         return r.stdout, r.stderr, r.returncode
     except subprocess.TimeoutExpired as e:
         out = e.stdout.decode() if isinstance(e.stdout, bytes) else (e.stdout or "")
